@@ -269,6 +269,10 @@ namespace occa {
     }
 
     void fileOrigin::postprint(io::output &out) const {
+      if (!position.lineStart) {
+        // Origin without source text (builtin or generated token)
+        return;
+      }
       const char *lineEnd = position.lineStart;
       lex::skipTo(lineEnd, '\n');
 
